@@ -65,6 +65,10 @@ def generate(mod, only=None):
             rep.undecided_reason = f"outside the verified subset: {e}"
         except LookupError as e:
             rep.undecided_reason = f"extraction failed: {e}"
+        except (AttributeError, KeyError, TypeError, IndexError, z3.Z3Exception) as e:
+            # code that no longer fits the declared model of its data (an attribute the record type does not have, a
+            # value of another shape ...): outside the verified subset, never a verdict
+            rep.undecided_reason = f"outside the verified subset (the code no longer fits the contract's data model): {type(e).__name__}: {str(e)[:160]}"
         rep.dropped = sorted(getattr(eng, "dropped", []))
         rep.models = sorted(eng.used_models)
         rep.assumes = sorted(getattr(eng, "assumes_used", []))
